@@ -6,6 +6,7 @@ import (
 	"encoding/hex"
 	"encoding/json"
 	"fmt"
+	"math/big"
 	"os"
 	"reflect"
 	"strconv"
@@ -233,6 +234,49 @@ func sliceInputs() (out []struct {
 	return out
 }
 
+// intInputs: vm_stk_int#0201_ value:int257 (15 tag bits, 257 bits two's complement) for -2^256, -2^256+1, 2^256-1,
+// +-2^255, +-2^64, +-2^63 and their neighbours, 0, +-1; and vm_stk_tinyint#01 with the int64 extremes.
+func intInputs() (out []struct {
+	class string
+	root  *node
+}) {
+	one := big.NewInt(1)
+	mod := new(big.Int).Lsh(one, 257)
+	add := func(class string, v *big.Int) {
+		w := new(big.Int).Set(v)
+		if w.Sign() < 0 {
+			w.Add(w, mod)
+		}
+		out = append(out, struct {
+			class string
+			root  *node
+		}{class, &node{bits: "000000100000000" + fmt.Sprintf("%0257s", w.Text(2))}})
+	}
+	for _, e := range []uint{256, 255, 64, 63, 32, 8} {
+		p := new(big.Int).Lsh(one, e)
+		for _, dlt := range []int64{-1, 0, 1} {
+			v := new(big.Int).Add(p, big.NewInt(dlt))
+			n := new(big.Int).Neg(v)
+			if v.BitLen() <= 256 {
+				add(fmt.Sprintf("int:2^%d%+d", e, dlt), v)
+			}
+			if n.Cmp(new(big.Int).Neg(new(big.Int).Lsh(one, 256))) >= 0 {
+				add(fmt.Sprintf("int:-(2^%d%+d)", e, dlt), n)
+			}
+		}
+	}
+	add("int:0", big.NewInt(0))
+	add("int:1", one)
+	add("int:-1", big.NewInt(-1))
+	for _, v := range []int64{0, 1, -1, 1<<63 - 1, -1 << 63} {
+		out = append(out, struct {
+			class string
+			root  *node
+		}{"tinyint", &node{bits: byteBits(1) + bitsOf(uint64(v), 64)}})
+	}
+	return out
+}
+
 // DriveTuples feeds the vectors of VmTuple_Gen to the three decoders a tuple can arrive at.
 func DriveTuples(w *ev.Writer, o Opts) error {
 	r := NewRec(w, o)
@@ -261,6 +305,12 @@ func DriveTuples(w *ev.Writer, o Opts) error {
 	for i, in := range sliceInputs() {
 		d.decode("tlb.VmStackValue", tv, in.class, in.root, nil, i%2 == 1)
 		st := &node{bits: bitsOf(1, 24) + in.root.bits, refs: append([]*node{{}}, in.root.refs...)}
+		d.decode("tlb.VmStack", ts, in.class, st, nil, i%2 == 0)
+	}
+	// integer entries at the edges of int257 and of the machine widths: vm_stk_int#0201_ value:int257, decoded from cells
+	for i, in := range intInputs() {
+		d.decode("tlb.VmStackValue", tv, in.class, in.root, nil, i%2 == 1)
+		st := &node{bits: bitsOf(1, 24) + in.root.bits, refs: []*node{{}}}
 		d.decode("tlb.VmStack", ts, in.class, st, nil, i%2 == 0)
 	}
 	r.End()
